@@ -120,6 +120,44 @@ def write_tree(ctx, rng, xs, name):
     return main, tree
 
 
+# aggregated registers: one row per group (all postings, an account, a payee, a month, a week day) - date, label, account and
+# exact amount of every row are compared as a multiset with the base journal's (the date of a group is that of its
+# earliest posting; `--sort date` orders the groups)
+AGG = '%(date)|%(payee)|%(account)|%(verif_rational(amount))\n'
+AGG_COMMANDS = [('subtotal', ['reg', '--subtotal', '--sort', 'date']),
+                ('by-payee', ['reg', '--by-payee', '--payee', 'account_base', '--sort', 'date']),
+                ('monthly', ['reg', '--monthly', '--sort', 'date']),
+                ('dow', ['reg', '--dow']),
+                ('collapse', ['reg', '--collapse', '--sort', 'date']),
+                ('depth-1', ['bal', '--depth', '1', '--no-total'])]
+
+
+def canon_value(r):
+    """hook text of an amount or balance -> sorted non-zero (commodity key without computed lot details, exact quantity)"""
+    ents = [X.canon_amount(e) for e in (r[2:].split(';') if r.startswith('B:') and r[2:] else [r] if r.startswith('A:') else [])]
+    tot = {}
+    for e in ents:
+        if e:
+            k = (e[0] or '').split('~')[0]
+            tot[k] = tot.get(k, 0) + e[1]
+    return tuple(sorted((k, q) for k, q in tot.items() if q != 0))
+
+
+def run_aggregates(ctx, main):
+    out_ = {}
+    for name, cmd in AGG_COMMANDS:
+        st, out, err = lib.run_ledger(['-f', main] + cmd + ['--format', AGG if cmd[0] == 'reg' else '%(date)|-|%(account)|%(verif_rational(display_total))\n'])
+        rows = []
+        for l in out.decode('utf-8', 'replace').split('\n'):
+            f = l.split('|')
+            if len(f) == 4:
+                v = canon_value(f[3])
+                if v:
+                    rows.append((f[0], f[1], f[2], v))
+        out_[name] = (st, sorted(rows))
+    return out_
+
+
 def run_variant(ctx, main):
     LOTS = {}
     st, out, err = lib.run_ledger(['-f', main, 'bal', '--flat', '--empty', '--no-total', '--format', BAL])
@@ -262,6 +300,16 @@ def run(ctx, n_override=None):
                     res.disagreements.append(dict(name='C08/balances', case=main, kind=kind, status=st, counts=(mn, nrows), text='\n'.join(x.text(x.orig) for x in xs),
                                                   diff=str([(a, ib.get(a), mb.get(a)) for a in set(ib) | set(mb) if ib.get(a) != mb.get(a)])[:1500],
                                                   impl=str((sorted(ib.items()), nrows))[:600], model=str((sorted(mb.items()), mn))[:600], err=err[-300:]))
+            # aggregated registers against the base's
+            agg = run_aggregates(ctx, main) if (vi == 0 or vi % 3 == 1) else None
+            if vi == 0:
+                ref_agg = agg
+            elif agg is not None and kind != 'pperm':
+                for cname in agg:
+                    res.count('aggregate:' + cname)
+                    if agg[cname] != ref_agg[cname]:
+                        res.violations.append(dict(key='aggregate-differs:%s:%s' % (cname, kind), desc='the aggregated report `%s` differs from the base journal\'s' % ' '.join(dict(AGG_COMMANDS)[cname]),
+                                                   case=dict(base=ref[3], variant=main, text=open(main).read()), observed=str(agg[cname])[:600], required=str(ref_agg[cname])[:600]))
             # oracle: identical to the base
             if ref is None:
                 ref = (st, {a: ([shown(e) for e in v] if a != '__lots__' else v) for a, v in bal.items()}, reg, open(main).read())
